@@ -27,6 +27,18 @@ def install(eng):
         "*zzverif.keccakState": {"Write", "Sum", "Reset", "Size", "BlockSize"},
         "*zzverif.ctx": {"Done", "Err", "Value", "Deadline"},
     })
+    T = eng.ir.types
+    T.setdefault("zz:errorString", {"k": "struct", "fields": [{"name": "s", "t": "string", "tag": "", "emb": False, "exp": False}]})
+    T.setdefault("zz:wrapError", {"k": "struct", "fields": [{"name": "msg", "t": "string", "tag": "", "emb": False, "exp": False},
+                                                            {"name": "err", "t": "error", "tag": "", "emb": False, "exp": False}]})
+    T.setdefault("*errors.errorString", {"k": "ptr", "elem": "zz:errorString"})
+    T.setdefault("*fmt.wrapError", {"k": "ptr", "elem": "zz:wrapError"})
+    T.setdefault("*github.com/russross/meddler.dbErr", {"k": "ptr", "elem": "zz:wrapError"})
+    T.setdefault("zz:meddlerDbErr", T["zz:wrapError"])
+    T.setdefault("zz:keccakState", {"k": "struct", "fields": []})
+    T.setdefault("*zzverif.keccakState", {"k": "ptr", "elem": "zz:keccakState"})
+    T.setdefault("zz:ctx", {"k": "struct", "fields": []})
+    T.setdefault("*zzverif.ctx", {"k": "ptr", "elem": "zz:ctx"})
     orig = eng.call_value
 
     def call_value(st, fr, fnv, args, ins, deferred=False):
@@ -162,8 +174,10 @@ def zz_assert(eng, st, fr, args, ins):
             rec["model"] = eng.model_values(st, eng.solver.last_model)
         eng.asserts.append(rec)
         raise PathEnd("assert_failed", name)
-    import time
+    import time, os
     t0 = time.time()
+    if os.environ.get("VERIF_DUMP_ASSERTS"):
+        open("/tmp/assert_%s.smt2" % name.replace(" ", "_")[:40], "w").write(eng.solver.to_smt2(st.pc, z3.Not(c)))
     r = eng.solver.check(st.pc, z3.Not(c))
     rec["solver_s"] = round(time.time() - t0, 3)
     if r == "unsat":
@@ -367,6 +381,7 @@ def fmt_errorf(eng, st, fr, args, ins):
 
 def unwrap_once(eng, st, e):
     """returns ('val', err) or ('call', fname) for types whose Unwrap must be executed"""
+    e = eng.resolve_iface(st, e)
     if e is None:
         return ("val", None)
     if e.tid == "*fmt.wrapError":
@@ -381,10 +396,11 @@ def unwrap_once(eng, st, e):
 
 @intr("errors.Is")
 def errors_is(eng, st, fr, args, ins):
-    err, target = args
+    err, target = eng.resolve_iface(st, args[0]), eng.resolve_iface(st, args[1])
     res = False
     cur = err
     for _ in range(50):
+        cur = eng.resolve_iface(st, cur)
         if cur is None:
             break
         if target is not None and cur.tid == target.tid:
@@ -413,7 +429,7 @@ def errors_unwrap(eng, st, fr, args, ins):
 
 @intr("errors.As")
 def errors_as(eng, st, fr, args, ins):
-    err, target = args
+    err, target = eng.resolve_iface(st, args[0]), args[1]
     # target: Iface(ptr-to-T type, Ptr)
     if target is None:
         raise GoPanic("errors.As: target nil")
@@ -422,6 +438,7 @@ def errors_as(eng, st, fr, args, ins):
     tu = eng.ir.under(ttid)
     cur = err
     for _ in range(50):
+        cur = eng.resolve_iface(st, cur)
         if cur is None:
             return False
         if tu["k"] == "iface":
@@ -455,7 +472,9 @@ def keccak_bytes(eng, st, bs):
     """bs: tuple of byte values -> tuple of 32 byte values"""
     n = len(bs)
     if all(type(b) is int for b in bs):
-        return tuple(keccak256(bytes(bs)))
+        out = keccak256(bytes(bs))
+        eng.keccak_images[(n, int.from_bytes(out, "big"))] = int.from_bytes(bytes(bs), "big")
+        return tuple(out)
     K = eng.keccak_uf(n)
     term = K(eng.pack(bs))
     eng.keccak_apps.setdefault(n, {})[term.get_id()] = term
